@@ -68,6 +68,21 @@ FIRST_MISS = {
     ('C15', 'm10'): "every scenario used a fresh application object; a second driver party built on mp::BasicBackend now serves 1..3 Run() calls of one application object, and the reference model counts handler objects",
     ('C15', 'm11'): "a fault on the handler's write applied to one call only; faults can now persist over many occurrences (a full non-blocking pipe that nobody drains)",
     ('C20', 'm10'): "the export always went into a fresh file; in 15 % of the scenarios the file now exists before the run (an earlier export, or a leftover without final newline)",
+    # ---- round 6 (m12, m13)
+    ('C14', 'm12'): "no consumer used the library's default C callback table, and messages had at most 12 leading backspaces; added that party (NLW2_MakeSOLHandler_C_Default + a Header callback) and messages with 20..420 leading backspaces",
+    ('C14', 'm13'): "the C flavour of the easy reader was not a consumer, and no consumer object had a history; added NLW2_ReadSolution_C on a solver object that has read another solution (with suffixes of its own) before: every suffix it returns must be one of the file under test",
+    ('C15', 'm12'): "registered data were arbitrary scripted cells; added a registration pattern in which the driver opens a new solver session whenever its options have been parsed and registers the session in use when the framework asks for it: an interrupt during the solve must reach the session being solved (STALE_SESSION)",
+    ('C15', 'm13'): "no backend object was ever handed a model twice (the stub's model manager refuses on the pinned tree); added a third driver party, a StdBackend driver with a do-nothing model manager whose backend serves 1..3 RunFromNLFile calls, each opening a new session",
+    ('C11', 'm12'): "unknown names had no braces; names such as 'no{}such', '{0}', 'tech:{threads}' are now generated (messages quote the name)",
+    ('C05', 'm12'): "the hand-off was fault-free by design; a separate fault-injecting configuration (6 %) puts one interrupted / short / failing flush into the writer's run with a small stdio buffer: the writer reports it, or the complete file round-trips",
+    ('C05', 'm13'): "the easy readers were compared on values and suffixes only, and only the C++ flavour read; message and solve result are now compared too, and half of these scenarios go through NLW2_ReadSolution_C",
+    ('C08', 'm12'): "every generated name was non-empty and names were compared in the files only; a quarter of the named models now have some empty names, and the names that reach the solver stub (read by the driver with the library's name reader) are compared with the caller's through the permutation",
+    ('C03', 'm13'): "the feeder's OutputPrecision() was always 0; it is now a knob (0, or 17..30 = all digits requested explicitly)",
+    ('C10', 'm13'): "AMPLS sessions only had plain answers; a third of them now run with sol:chk:fail and a violating answer, so that a report step ends in the documented coded error 150: whatever .sol is left carries that code",
+    ('C09', 'm13'): "generated names had quotes, backslashes, tabs and UTF-8 but no braces; names like x[3,'{A}'] and x[4,'{}->{0}'] are now generated (solution-check warnings quote them in the solve message)",
+    ('C20', 'm12'): "models had at most a dozen constraints; 1.2 % of the scenarios now append 1050..1750 range rows converted one by one (acc:linrange=0), and every auxiliary variable must be the destination of some link record (UNLINKED_ITEM)",
+    ('C20', 'm13'): "the pre-existing export file was always a regular file; in a third of those scenarios the option now names a symbolic link to the earlier export",
+    ('C04', 'm12'): "dual value classes were large / negative / small / zero-on-odd-rows; added 'every dual exactly zero' (no binding row)",
 }
 
 res = {}
